@@ -533,6 +533,44 @@ func (e *Engine) load(place *Term, ctx *Ctx, at ssa.Value) *Term {
 	} else if at != nil {
 		atInstr, _ = at.(ssa.Instruction)
 	}
+	// an element of a local array literal selected by a loop counter (`for _, row :=
+	// range [...]T{…}`): keep the table, so that the rows stay correlated and the loop
+	// can be unrolled — index(array(row0, …), i).rest
+	if base.Op == OpNew && len(path) > 0 && path[0] == "[*]" && isArrayObj(base) {
+		if tbl := e.localArrayLiteral(base, ctx, at); tbl != nil {
+			// the symbolic index of the place: first Index step above the base
+			var idx *Term
+			for p := place; p != nil && idx == nil; {
+				switch p.Op {
+				case OpIndex:
+					if b2, _ := splitPlace(p.Args[0]); b2 == base && StripConv(p.Args[0]).Op != OpIndex && StripConv(p.Args[0]).Op != OpField {
+						idx = p.Args[1]
+					}
+					p = p.Args[0]
+				case OpField, OpAddr:
+					p = p.Args[0]
+				default:
+					p = nil
+				}
+			}
+			if idx != nil {
+				v := e.mk(OpIndex, "", nil, tbl, idx)
+				for _, step := range path[1:] {
+					if strings.HasPrefix(step, ".") {
+						v = e.fieldOf(v, step[1:], at, ctx)
+					} else if step != "[*]" {
+						v = e.mk(OpIndex, "", nil, v, C(strings.Trim(step, "[]")))
+					} else {
+						v = nil
+						break
+					}
+				}
+				if v != nil {
+					return v
+				}
+			}
+		}
+	}
 	bs := base.String()
 	var cands []cand
 	var allocCtx *Ctx
@@ -1122,4 +1160,48 @@ func (e *Engine) loadIsAfter(w ssa.Instruction, atInstr ssa.Instruction, ctx *Ct
 		}
 	}
 	return false
+}
+
+// localArrayLiteral: base is a local array object (at most 16 elements) all of
+// whose writes are constant-index stores in its allocating block (a composite
+// literal). Returns slice(array(elem0, …)) of the element values, or nil.
+func (e *Engine) localArrayLiteral(base *Term, ctx *Ctx, at ssa.Value) *Term {
+	al, ok := base.Val.(*ssa.Alloc)
+	if !ok {
+		return nil
+	}
+	arr, ok := derefType(base).Underlying().(*types.Array)
+	if !ok || arr.Len() == 0 || arr.Len() > 16 {
+		return nil
+	}
+	e.buildWrites()
+	bs := base.String()
+	seen := map[string]bool{}
+	for _, w := range e.allWrites {
+		if w.Base != bs {
+			continue
+		}
+		if len(w.Path) == 0 || w.Path[0] == "[*]" || w.Kind != "store" || w.Instr.Block() != al.Block() || w.Fn != al.Parent() {
+			return nil
+		}
+		seen[w.Path[0]] = true
+	}
+	if len(seen) == 0 {
+		return nil
+	}
+	var els []*Term
+	for k := int64(0); k < arr.Len(); k++ {
+		sub := &Term{Op: OpIndex, Args: []*Term{base, C(fmt.Sprint(k))}}
+		var ai ssa.Instruction
+		if at != nil {
+			ai, _ = at.(ssa.Instruction)
+			if tv, ok := at.(typedValue); ok && tv.Value != nil {
+				ai, _ = tv.Value.(ssa.Instruction)
+			}
+		}
+		els = append(els, e.loadTyped(sub, ctx, ai, arr.Elem()))
+	}
+	a := e.mk(OpArray, "", nil, els...)
+	a.Typ = arr
+	return e.mk(OpSlice, fmt.Sprintf("arr%d", arr.Len()), nil, a, C(""), C(""))
 }
